@@ -491,7 +491,11 @@ var defOf = map[string]*Term{}
 var belowBase = map[string]bool{}
 var baseAllocName = "alloc@0"
 
+// simplePatternsOnly (`opt patterns=simple`): never use nested selects as triggers.
+var simplePatternsOnly bool
+
 func resetTermTables() {
+	simplePatternsOnly = false
 	defOf = map[string]*Term{}
 	belowBase = map[string]bool{}
 }
@@ -801,7 +805,10 @@ func MkQuant(forall bool, k *Term, lo, hi, body *Term) *Term {
 	splitConj(body, nil, &parts)
 	var out []*Term
 	for _, part := range parts {
-		pats := nestedPatterns(part, bv)
+		var pats [][]*Term
+		if !simplePatternsOnly {
+			pats = nestedPatterns(part, bv)
+		}
 		if len(pats) == 0 {
 			pats = simplePatterns(part, bv)
 		}
